@@ -15,6 +15,19 @@ NS = len(SETS)
 P = M.P
 
 
+# cells whose nodes hold objects of the library's own classes in the copied state: an undefined
+# name (an error constant kept as a Ranges), a constant array folded when the cell is compiled
+# and spread over a larger range (an Array with its own default)
+EXTRA = {P + 'L1': '=FOO+1', P + 'L2': '=IFERROR(FOO,%sA1)' % P, P + 'M1:O1': '={1,2}',
+         P + 'M2': '=IF(ISNA(%sO1),%sN1,-1)' % (P, P), P + 'M3:N4': '={1,2;3,4}'}
+
+
+def build():
+    d = M.template(T)
+    d.update(EXTRA)
+    return formulas.ExcelModel().from_dict(d).finish(complete=False)
+
+
 def clone(obj, kind):
     if kind == 0:
         return copy.deepcopy(obj)
@@ -38,12 +51,12 @@ NM = M.NOPS + 2
 
 def _model(kind, op_a, op_b, first_a, k):
     """equivalence and independence of a model and its copy"""
-    a = M.build(T)
+    a = build()
     if first_a:
         mutate(a, op_a)                 # the copy is taken from a model that has a history
     b = clone(a, kind)
     label, inp = SETS[k]
-    want = M.norm(M.build(T).calculate(inputs=inp))
+    want = M.norm(build().calculate(inputs=inp))
     # interleave: operate on one, observe the other, and the other way round
     mutate(a, op_a)
     if M.norm(b.calculate(inputs=inp)) != want:
@@ -65,7 +78,7 @@ def model_copy_ok(c0: bool, c1: bool, a0: bool, a1: bool, a2: bool, a3: bool, b0
 
 OPA = __OPA__
 INPUTS = [[P + 'A1'], [P + 'A1', P + 'A2'], [M.NAME], [M.BLOCK]]
-OUTS = [M.Q + 'A1', P + 'B2', P + 'C1', P + 'D1', P + 'J1', P + 'J2']
+OUTS = [M.Q + 'A1', P + 'B2', P + 'C1', P + 'D1', P + 'J1', P + 'J2', P + 'L2', P + 'M2']
 
 
 def _func(kind, i, a, b):
@@ -79,10 +92,10 @@ def _func(kind, i, a, b):
         if inputs[0] == M.BLOCK:
             v[0] = [[pl[x], pl[y]], [pl[y], 3]]
         return v
-    f = M.build(T).compile(inputs, OUTS)
+    f = build().compile(inputs, OUTS)
     f(*args(b, a))                                   # the original has been called before it is copied
     g = clone(f, kind)
-    ref = M.build(T).compile(inputs, OUTS)
+    ref = build().compile(inputs, OUTS)
 
     def res(fn, x, y):
         return [M.norm_value(v.value) for v in fn(*args(x, y))]
